@@ -68,92 +68,36 @@ common one: the string-literal alternatives (double-quoted literal for MySQL / B
 alternatives (`[x]`, dashed names, `@local`), and SQL Server's switch that turns `[ … ]` from an array
 constructor into a name.  Inspected by hand; anything else is a new dialect difference. -/
 def allowedDialectDiff : List String := [
-  "bigquery_parser/* +4 And||||",
-  "bigquery_parser/* +1 Char|||[\\$0-9@-Z_a-zÀ-ÖØ-öø-ƿ]|",
-  "bigquery_parser/* +1 Char|||[\\$@-Z_a-zÀ-ÖØ-öø-ƿ]|",
-  "bigquery_parser/* +2 Char|||[^ 0-9]|",
-  "bigquery_parser/* +1 Char|||[^\"]|",
-  "bigquery_parser/* +1 LookAhead||||",
-  "bigquery_parser/* +2 MatchFirst||||",
-  "bigquery_parser/* +1 PrecededBy||||",
   "bigquery_parser/* +1 Regex|identifier_with_dashes||[\\$@-Z_a-zÀ-ÖØ-öø-ƿ](?:(?<=[^ 0-9])\\-(?=[^ 0-9])|[\\$0-9@-Z_a-zÀ-ÖØ-öø-ƿ])*|",
   "bigquery_parser/* +1 Regex|||\\\"(?:\\\"\\\"|[^\"])*\\\"|double_literal",
-  "bigquery_parser/* +4 SingleCharLiteral||\"|\"|",
-  "bigquery_parser/* +1 SingleCharLiteral||-|\\-|",
-  "bigquery_parser/* +2 ZeroOrMore||||",
-  "bigquery_parser/None +4 And||||",
-  "bigquery_parser/None +1 Char|||[\\$0-9@-Z_a-zÀ-ÖØ-öø-ƿ]|",
-  "bigquery_parser/None +1 Char|||[\\$@-Z_a-zÀ-ÖØ-öø-ƿ]|",
-  "bigquery_parser/None +2 Char|||[^ 0-9]|",
-  "bigquery_parser/None +1 Char|||[^\"]|",
-  "bigquery_parser/None +1 LookAhead||||",
-  "bigquery_parser/None +2 MatchFirst||||",
-  "bigquery_parser/None +1 PrecededBy||||",
   "bigquery_parser/None +1 Regex|identifier_with_dashes||[\\$@-Z_a-zÀ-ÖØ-öø-ƿ](?:(?<=[^ 0-9])\\-(?=[^ 0-9])|[\\$0-9@-Z_a-zÀ-ÖØ-öø-ƿ])*|",
   "bigquery_parser/None +1 Regex|||\\\"(?:\\\"\\\"|[^\"])*\\\"|double_literal",
-  "bigquery_parser/None +4 SingleCharLiteral||\"|\"|",
-  "bigquery_parser/None +1 SingleCharLiteral||-|\\-|",
-  "bigquery_parser/None +2 ZeroOrMore||||",
-  "mysql_parser/* +6 And||||",
-  "mysql_parser/* +1 Char|||[\\$0-9@-Z_a-zÀ-ÖØ-öø-ƿ]|",
-  "mysql_parser/* +1 Char|||[\\$@-Z_a-zÀ-ÖØ-öø-ƿ]|",
-  "mysql_parser/* +2 Char|||[^ 0-9]|",
-  "mysql_parser/* +1 Char|||[^\"]|",
-  "mysql_parser/* +1 Char|||[^\\]]|",
-  "mysql_parser/* +1 LookAhead||||",
-  "mysql_parser/* +3 MatchFirst||||",
-  "mysql_parser/* +1 PrecededBy||||",
   "mysql_parser/* +1 Regex|identifier_with_dashes||[\\$@-Z_a-zÀ-ÖØ-öø-ƿ](?:(?<=[^ 0-9])\\-(?=[^ 0-9])|[\\$0-9@-Z_a-zÀ-ÖØ-öø-ƿ])*|no_dashes",
   "mysql_parser/* +1 Regex|||\\\"(?:\\\"\\\"|[^\"])*\\\"|double_literal",
   "mysql_parser/* +1 Regex|||\\[(?:\\]\\]|[^\\]])*\\]|square_column",
-  "mysql_parser/* +4 SingleCharLiteral||\"|\"|",
-  "mysql_parser/* +1 SingleCharLiteral||-|\\-|",
-  "mysql_parser/* +1 SingleCharLiteral||[|\\[|",
-  "mysql_parser/* +3 SingleCharLiteral||]|\\]|",
-  "mysql_parser/* +3 ZeroOrMore||||",
-  "mysql_parser/None +6 And||||",
-  "mysql_parser/None +1 Char|||[\\$0-9@-Z_a-zÀ-ÖØ-öø-ƿ]|",
-  "mysql_parser/None +1 Char|||[\\$@-Z_a-zÀ-ÖØ-öø-ƿ]|",
-  "mysql_parser/None +2 Char|||[^ 0-9]|",
-  "mysql_parser/None +1 Char|||[^\"]|",
-  "mysql_parser/None +1 Char|||[^\\]]|",
-  "mysql_parser/None +1 LookAhead||||",
-  "mysql_parser/None +3 MatchFirst||||",
-  "mysql_parser/None +1 PrecededBy||||",
   "mysql_parser/None +1 Regex|identifier_with_dashes||[\\$@-Z_a-zÀ-ÖØ-öø-ƿ](?:(?<=[^ 0-9])\\-(?=[^ 0-9])|[\\$0-9@-Z_a-zÀ-ÖØ-öø-ƿ])*|no_dashes",
   "mysql_parser/None +1 Regex|||\\\"(?:\\\"\\\"|[^\"])*\\\"|double_literal",
   "mysql_parser/None +1 Regex|||\\[(?:\\]\\]|[^\\]])*\\]|square_column",
-  "mysql_parser/None +4 SingleCharLiteral||\"|\"|",
-  "mysql_parser/None +1 SingleCharLiteral||-|\\-|",
-  "mysql_parser/None +1 SingleCharLiteral||[|\\[|",
-  "mysql_parser/None +3 SingleCharLiteral||]|\\]|",
-  "mysql_parser/None +3 ZeroOrMore||||",
   "sqlserver_parser/* +1 And|create_array|||to_array",
-  "sqlserver_parser/* +1 Char|||[^\\]]|",
-  "sqlserver_parser/* +1 MatchFirst||||",
   "sqlserver_parser/* +1 Regex|||\\[(?:\\]\\]|[^\\]])*\\]|square_column",
-  "sqlserver_parser/* +1 SingleCharLiteral||[|\\[|",
-  "sqlserver_parser/* +3 SingleCharLiteral||]|\\]|",
   "sqlserver_parser/* +1 Word|identifier||[\\$@-Z_a-zÀ-ÖØ-öø-ƿ][\\$0-9@-Z_a-zÀ-ÖØ-öø-ƿ]*|",
-  "sqlserver_parser/* -2 And||||",
+  "sqlserver_parser/* -4 And||||",
   "sqlserver_parser/* -1 And||||record_self,output",
   "sqlserver_parser/* -1 Group||||",
   "sqlserver_parser/* -1 MatchFirst|create_array|||to_array",
   "sqlserver_parser/* -1 SingleCharLiteral||,|,|",
   "sqlserver_parser/* -1 Suppress|||,|",
+  "sqlserver_parser/* -1 ZeroOrMore||||",
   "sqlserver_parser/None +1 And|create_array|||to_array",
-  "sqlserver_parser/None +1 Char|||[^\\]]|",
-  "sqlserver_parser/None +1 MatchFirst||||",
   "sqlserver_parser/None +1 Regex|||\\[(?:\\]\\]|[^\\]])*\\]|square_column",
-  "sqlserver_parser/None +1 SingleCharLiteral||[|\\[|",
-  "sqlserver_parser/None +3 SingleCharLiteral||]|\\]|",
   "sqlserver_parser/None +1 Word|identifier||[\\$@-Z_a-zÀ-ÖØ-öø-ƿ][\\$0-9@-Z_a-zÀ-ÖØ-öø-ƿ]*|",
-  "sqlserver_parser/None -2 And||||",
+  "sqlserver_parser/None -4 And||||",
   "sqlserver_parser/None -1 And||||record_self,output",
   "sqlserver_parser/None -1 Group||||",
   "sqlserver_parser/None -1 MatchFirst|create_array|||to_array",
   "sqlserver_parser/None -1 SingleCharLiteral||,|,|",
-  "sqlserver_parser/None -1 Suppress|||,|"]
+  "sqlserver_parser/None -1 Suppress|||,|",
+  "sqlserver_parser/None -1 ZeroOrMore||||"]
 
 /-- regular-expression terminals of the SQL grammar that are not of a kind `MoSql.Peg` models (literal, keyword,
 character-class word, quoted text): string literals with an introducer, hexadecimal and decimal numbers, the
